@@ -283,6 +283,12 @@ func (lc *lenChecker) minLen(x ssa.Value, at *ssa.BasicBlock, depth int) int64 {
 			if m := lc.minLen(v.X, v.Block(), depth+1); m >= 0 {
 				up(m - lo)
 			}
+			// arr[c:] of a fixed-size array
+			if pt, isP := v.X.Type().Underlying().(*types.Pointer); isP {
+				if at, isA := pt.Elem().Underlying().(*types.Array); isA && at.Len()-lo >= 0 {
+					up(at.Len() - lo)
+				}
+			}
 		} else if h, ok := constInt(v.High); ok {
 			lo := int64(0)
 			if v.Low != nil {
@@ -336,6 +342,107 @@ func (lc *lenChecker) minLen(x ssa.Value, at *ssa.BasicBlock, depth int) int64 {
 		}
 	}
 	return best
+}
+
+// maxLen: an upper bound of len(x) valid in block at: the exact length a dominating guard
+// `len(x) == k` establishes, minus what a constant re-slice x[c:] or x[c:d] cuts off.
+func (lc *lenChecker) maxLen(x ssa.Value, at *ssa.BasicBlock, depth int) (int64, bool) {
+	if depth > 6 {
+		return 0, false
+	}
+	for _, g := range branchGuards(at) {
+		if c, isCall := g.cond.(*ssa.Call); isCall && g.val {
+			// a predicate helper whose true result implies len(arg) == k
+			if f := c.Call.StaticCallee(); f != nil && inModule(f) && len(f.Blocks) > 0 && len(f.Params) == len(c.Call.Args) {
+				for j, a := range c.Call.Args {
+					if sameSlice(a, x) {
+						if k, ok := lc.exactLenWhenTrue(f, f.Params[j]); ok {
+							return k, true
+						}
+					}
+				}
+			}
+			continue
+		}
+		bo, ok := g.cond.(*ssa.BinOp)
+		if !ok {
+			continue
+		}
+		arg, isLen := lenCallOf(bo.X)
+		k, isK := constInt(bo.Y)
+		op := bo.Op
+		if !isLen {
+			arg, isLen = lenCallOf(bo.Y)
+			k, isK = constInt(bo.X)
+			op = flipTok(op)
+		}
+		if !isLen || !isK || !sameSlice(arg, x) {
+			continue
+		}
+		if !g.val {
+			op = negTok(op)
+		}
+		switch op {
+		case token.EQL, token.LEQ:
+			return k, true
+		case token.LSS:
+			return k - 1, true
+		}
+	}
+	if v, ok := x.(*ssa.Slice); ok {
+		lo := int64(0)
+		if v.Low != nil {
+			c, ok := constInt(v.Low)
+			if !ok {
+				return 0, false
+			}
+			lo = c
+		}
+		if v.High != nil {
+			if h, ok := constInt(v.High); ok {
+				return h - lo, true
+			}
+			return 0, false
+		}
+		if pt, isP := v.X.Type().Underlying().(*types.Pointer); isP {
+			if at, isA := pt.Elem().Underlying().(*types.Array); isA {
+				return at.Len() - lo, true
+			}
+		}
+		if m, ok := lc.maxLen(v.X, v.Block(), depth+1); ok {
+			return m - lo, true
+		}
+	}
+	return 0, false
+}
+
+// exactLenWhenTrue: the boolean function fn returns true only when len(p) == k.
+func (lc *lenChecker) exactLenWhenTrue(fn *ssa.Function, p *ssa.Parameter) (int64, bool) {
+	var out int64
+	found, consistent := false, true
+	allInstrs(fn, func(b *ssa.BasicBlock, ins ssa.Instruction) {
+		bo, ok := ins.(*ssa.BinOp)
+		if !ok || bo.Op != token.EQL {
+			return
+		}
+		arg, isLen := lenCallOf(bo.X)
+		k, isK := constInt(bo.Y)
+		if !isLen {
+			arg, isLen = lenCallOf(bo.Y)
+			k, isK = constInt(bo.X)
+		}
+		if isLen && isK && sameSlice(arg, p) {
+			if found && out != k {
+				consistent = false
+			}
+			out, found = k, true
+		}
+	})
+	// the equality must be what the lower bound rests on as well: true implies len >= k
+	if !found || !consistent || lc.lenWhenTrue(fn, p, 1) != out {
+		return 0, false
+	}
+	return out, true
 }
 
 // lenWhenTrue: a lower bound of len(p) that holds whenever the boolean function fn returns true
@@ -802,6 +909,50 @@ func (lc *lenChecker) checkIndices(r *Report, fn *ssa.Function) int {
 			r.check("L1", key, pos, true, "index is the non-negative result of an Index* search in the same slice (always below its length)")
 			return
 		}
+		if !ok {
+			// `func f(in []T, out []U) { for i := range in { out[i] = .. } }`: the index runs over
+			// another parameter; every caller must hand over an `out` at least as long as `in`
+			if px, isP := x.(*ssa.Parameter); isP && fn.Object() != nil && !fn.Object().Exported() {
+				for yi, py := range fn.Params {
+					if py == px {
+						continue
+					}
+					if _, isSl := py.Type().Underlying().(*types.Slice); !isSl {
+						continue
+					}
+					st, of, _, okY := inductionOver(idx, py, b)
+					if !okY || st != 1 || of != 0 {
+						continue
+					}
+					xi := -1
+					for i, p := range fn.Params {
+						if p == px {
+							xi = i
+						}
+					}
+					refs := refsTo(lc.ctx, fn)
+					all := len(refs) > 0 && xi >= 0
+					detail := ""
+					for _, ref := range refs {
+						call, isCall := ref.ins.(*ssa.Call)
+						if !isCall || call.Call.StaticCallee() != fn || xi >= len(call.Call.Args) || yi >= len(call.Call.Args) {
+							all = false
+							break
+						}
+						have := lc.minLen(call.Call.Args[xi], call.Block(), 1)
+						need, okN := lc.maxLen(call.Call.Args[yi], call.Block(), 0)
+						detail += fmt.Sprintf(" caller %s: len(%s) <= %d, len(%s) >= %d;", shortFn(call.Parent()), py.Name(), need, px.Name(), have)
+						if !okN || have < need {
+							all = false
+						}
+					}
+					if all {
+						r.check("L1", key, pos, true, "index runs over the parameter "+py.Name()+", and at every call site "+px.Name()+" is at least as long:"+detail)
+						return
+					}
+				}
+			}
+		}
 		switch {
 		case ok && off >= 0 && off < stride && stride == 1:
 			r.check("L1", key, pos, true, "index is the induction variable of a loop bounded by len() of the same slice")
@@ -900,10 +1051,72 @@ func checkLoops(ctx *Ctx, r *Report, fn *ssa.Function) {
 					ok = true
 					why = "range"
 				}
+				// `for { v, ok := it.next(); if !ok { break } .. }`: a pull iterator whose
+				// "more" result is true only after a successful Scan of a bufio.Scanner
+				if call, isCall := x.Tuple.(*ssa.Call); isCall {
+					if g := call.Call.StaticCallee(); g != nil && inModule(g) && scanDriven(g, x.Index) {
+						ok = true
+						why = "driven by " + g.Name() + ", which yields only after a successful bufio.Scanner.Scan"
+					}
+				}
 			}
 		}
 		r.check("L3", key, b.Instrs[0].Pos(), ok, why)
 	}
+}
+
+// scanDriven: every return of g whose result number k can be true lies inside the true branch of
+// a bufio.Scanner.Scan test (each "more" costs at least one line of a finite input), and g's own
+// loops are Scan-driven.
+func scanDriven(g *ssa.Function, k int) bool {
+	if len(g.Blocks) == 0 {
+		return false
+	}
+	var scanTrue []*ssa.BasicBlock
+	allInstrs(g, func(b *ssa.BasicBlock, ins ssa.Instruction) {
+		iff, ok := ins.(*ssa.If)
+		if !ok {
+			return
+		}
+		c, neg := stripNot(iff.Cond)
+		call, ok := c.(*ssa.Call)
+		if !ok {
+			return
+		}
+		if f := call.Call.StaticCallee(); f != nil && f.String() == "(*bufio.Scanner).Scan" {
+			t := b.Succs[0]
+			if neg {
+				t = b.Succs[1]
+			}
+			if len(t.Preds) == 1 {
+				scanTrue = append(scanTrue, t)
+			}
+		}
+	})
+	if len(scanTrue) == 0 {
+		return false
+	}
+	okAll, n := true, 0
+	allInstrs(g, func(b *ssa.BasicBlock, ins ssa.Instruction) {
+		ret, ok := ins.(*ssa.Return)
+		if !ok || k >= len(ret.Results) {
+			return
+		}
+		n++
+		if c, isC := ret.Results[k].(*ssa.Const); isC && c.Value != nil && c.Value.Kind() == constant.Bool && !constant.BoolVal(c.Value) {
+			return // "no more": may be returned anywhere
+		}
+		inside := false
+		for _, t := range scanTrue {
+			if t == b || t.Dominates(b) {
+				inside = true
+			}
+		}
+		if !inside {
+			okAll = false
+		}
+	})
+	return okAll && n > 0
 }
 
 func checkNoPanic(ctx *Ctx, r *Report, fn *ssa.Function) {
